@@ -233,7 +233,8 @@ func runC02(c Case, tier string) (res CaseResult) {
 					if val != 0 && (kind == h.DELEGATECALL || kind == h.STATICCALL) {
 						continue
 					}
-					for _, cg := range []*uint256.Int{uint256.NewInt(0), uint256.NewInt(2300), uint256.NewInt(2301), uint256.NewInt(30000), uint256.NewInt(1 << 40), new(uint256.Int).Not(uint256.NewInt(0))} {
+					for _, cg := range []*uint256.Int{uint256.NewInt(0), uint256.NewInt(2300), uint256.NewInt(2301), uint256.NewInt(30000), uint256.NewInt(1 << 40), new(uint256.Int).Not(uint256.NewInt(0)),
+						new(uint256.Int).Lsh(uint256.NewInt(1), 64), new(uint256.Int).AddUint64(new(uint256.Int).Lsh(uint256.NewInt(1), 64), 5), new(uint256.Int).Lsh(uint256.NewInt(1), 255), new(uint256.Int).AddUint64(new(uint256.Int).Lsh(uint256.NewInt(1), 128), 30000), new(uint256.Int).Lsh(uint256.NewInt(0xdeadbeef), 96)} {
 						a := h.NewAsm()
 						a.PushU(32).PushU(0).PushU(32).PushU(0)
 						if kind == h.CALL || kind == h.CALLCODE {
@@ -253,6 +254,39 @@ func runC02(c Case, tier string) (res CaseResult) {
 							n++
 						}
 					}
+				}
+			}
+		}
+		// very large gas allowances (beyond what an Aspect runtime accepts), join points off and on with nothing bound
+		none := &h.AspectPlan{Pre: map[common.Address][]h.Binding{}, Post: map[common.Address][]h.Binding{}, FailAt: map[int]error{}}
+		for _, kind := range []byte{h.CALL, h.DELEGATECALL, h.STATICCALL} {
+			a := h.NewAsm().PushU(32).PushU(0).PushU(32).PushU(0)
+			if kind == h.CALL {
+				a.PushU(0)
+			}
+			a.PushAddr(h.ContractAddr(1)).Op(h.GAS, kind).PushU(3).Op(h.SSTORE, h.GAS).PushU(4).Op(h.SSTORE, h.STOP)
+			w := h.BaseWorld([][]byte{a.Bytes(), callee})
+			for _, gas := range []uint64{1 << 53, 9223372036854775, 9223372036854775 + 1000000, 1 << 62, 1 << 63, ^uint64(0)} {
+				for _, jp := range []bool{false, true} {
+					dc := DualCase{World: w, Env: h.EnvSpec{Fork: f}, Tx: h.TxSpec{Entry: h.ECall, From: h.Sender, To: h.ContractAddr(0), Gas: gas},
+						Desc: fmt.Sprintf("hugegas fork=%s kind=%#x txgas=%d joinpoints=%v (nothing bound)", f, kind, gas, jp)}
+					rs := h.NewRefSession(dc.World, dc.Env, h.RefOpts{Debug: true, RecSteps: true, LightMem: true})
+					rres := rs.Invoke(dc.Tx)
+					fs := h.NewForkSession(dc.World, dc.Env, h.ForkOpts{Debug: true, RecSteps: true, LightMem: true, JoinPoints: jp, Plan: none})
+					fres := fs.Invoke(dc.Tx)
+					if fres.Panic != "" {
+						res.Fail(Key("panic", "hugegas"), "panic: "+firstLine(fres.Panic), dc.Desc)
+						continue
+					}
+					if d, _ := compareStreams(fs.L, rs.L, false); d != "" {
+						res.Fail(Key("stream", "hugegas", fmt.Sprint(jp)), "debug-tracer stream differs from go-ethereum v1.12.0: "+d, dc.Desc)
+					}
+					addrs := h.TouchedAddrs(dc.World, rs.L)
+					if d := h.DiffOutcome(h.CollectOutcome(fs.DB, fres, fs.Rules.IsEIP158, addrs), h.CollectOutcome(rs.DB, rres, rs.Rules.IsEIP158, addrs)); len(d) > 0 {
+						res.Fail(Key("outcome", "hugegas", fmt.Sprint(jp)), "outcome (gas/refund/state) differs from go-ethereum v1.12.0", append([]string{dc.Desc}, d...)...)
+					}
+					res.Count("hugegas_runs", 1)
+					n++
 				}
 			}
 		}
